@@ -23,7 +23,9 @@ def run(c):
               "Agent.updateRemoteConfig with remote descriptions setting both / one / none of the hardware resolutions before events of real builtin fast and slow hardware metrics; timestamps 0, around CurrentTime/SendTime, far past/future, uint32 edge; all 12 allowed "
               "resolutions; nil/normal/hardware metric infos; dropIfBeforeTimestamp), flushBuckets(now) with 100 ms ticks, "
               "pauses, jumps ahead (incl. >125 s and whole laps) and back, a consumer that sometimes stalls, "
-              "StopReceivingIncomingData, final FlushAllData; plus pure mapAllTags/OriginalMarshalAppend ops under shuffled "
+              "StopReceivingIncomingData, final FlushAllData; every 4th case runs on an agent with TWO shards: counter/values/unique events through the real "
+              "Agent.Map+ApplyMetric for metrics with ShardFixedKey 1|2 and ShardFixedKey2 none/other shard/same shard/non-existing shard and "
+              "ShardFixedKey2Timestamp before/around/after the event time, both shards flushed and drained, exactly-once oracle per shard; plus pure mapAllTags/OriginalMarshalAppend ops under shuffled "
               "tag order and partial mapping caches. non-trivial = SendTime jumped ahead whole laps while an accepted event "
               "was waiting in the ring, or a low-resolution (res > 1) event was late (slot < SendTime, re-aligned); distinct by op-sequence hash")
     c.assumptions += [
@@ -74,13 +76,16 @@ META = {
              "placement_deterministic / same_second_on_all_agents: not late and not future-clamped => slot and stored timestamp are functions of "
              "(resolution, hash, timestamp) only; ov_cache_independent / ov_order_independent / resolution_hash_input_independent: the hashed bytes "
              "do not depend on the mapping cache, (for distinct tag names) tag order, or the content of the caller's scratch buffer (resolution_hash_ignores_scratch_prefix, resolution_hash_same_on_all_agents). drop_only_when: stop, gap > 0, or before the secondary "
-             "shard's start. The model is tied to /repo by replaying every generated script op by op on a real Shard (cell index, stored "
+             "shard's start. Two-shard routing of ApplyMetric (am2Step: primary always with dropIfBeforeTimestamp 0, secondary iff configured with its start, all three "
+             "event kinds): run2_shard projects every two-shard history onto single-shard histories, so two_shard_exactly_once / two_shard_delivered hold per shard; "
+             "primary_independent_of_secondary and primary_drop_only_gap_or_stop: the primary's state and acceptance do not depend on ShardFixedKey2/its timestamp; "
+             "secondary_drop_only_when, unconfigured_shard_untouched. The model is tied to /repo by replaying every generated script op by op on a real Shard (cell index, stored "
              "timestamp, gap/sendTime returned by flushBuckets, CurrentTime/SendTime, channel length, content of every pushed bucket incl. "
              "ingestion-status counters, marshalled OriginalTagValues and Key tags) and by regenerating the constants from the compiled code."),
     "note": ("Trusted: Lean kernel; the model<->code correspondence on generated scripts (quick 500, thorough 28000 scripts of 40-260 ops); Go mutex semantics "
              "(one critical section = one model step); xxh3 as an uninterpreted input. Modelled not verified: uint32 wrap-around (clocks < 125 s or near 2^32), "
              "resolution 0 or outside format.AllowedResolution (hypothesis OpOk), raw/host/invalid tags in mapAllTags, string-top/sampling/merging inside a bucket "
-             "(other properties), two-shard routing of ApplyMetric (shard2 is exercised only through the dropIfBeforeTimestamp parameter). "
+             "(other properties); the two-shard model has exactly two shards and only valid headers (ingestion-status/warning branches of ApplyMetric with shard2 are not modelled). "
              "Liveness (that a flush eventually happens) is not part of the property: 'delivered' means pushed to BucketsToPreprocess."),
     "design_ref": "DESIGN.md §6 C08",
 }
